@@ -33,7 +33,9 @@ namespace bloc
 
 Value& MemberCONCATExpression::value(Context& ctx) const
 {
-  Value& val = _exp->value(ctx);
+  /* the null constant is immutable: the result is built in a temporary */
+  Value& val = (_exp->isConst() && _exp->type(ctx) == Type::NO_TYPE
+          ? ctx.allocate(Value(Value::type_no_type)) : _exp->value(ctx));
   Value& a0 = _args[0]->value(ctx);
 
   /* collection */
